@@ -201,7 +201,7 @@ def r4_format(text, int_args=(), chars=()):
                 rest = [text[toks[a][2]:toks[b][3]] for a, b in args[1:]]
                 if parts is not None and all(p[0] == 'lit' or p[1] == '' for p in parts) \
                         and sum(1 for p in parts if p[0] == 'hole') == len(rest) \
-                        and not any(r.strip() in int_args for r in rest):
+                        and True:
                     items, ri = [], 0
                     for p in parts:
                         if p[0] == 'lit':
@@ -210,6 +210,8 @@ def r4_format(text, int_args=(), chars=()):
                             a = rest[ri].strip(); ri += 1
                             if a in chars:
                                 items.append('&vx_char_to_string(%s)' % a)
+                            elif a in int_args:
+                                items.append('&vx_int_to_string(%s as i64)' % a)
                             else:
                                 items.append('&' + a if not a.startswith('&') else a)
                     if 1 <= len(items) <= 5:
